@@ -248,7 +248,11 @@ class Inductor(Entity):
 
         # Schedule poll after one smoothed interval
         wait_s = self._smoothed_interval if self._smoothed_interval else 0.01
-        poll_time = now + Duration.from_seconds(wait_s)
+        wait = Duration.from_seconds(wait_s)
+        if wait == Duration.ZERO:
+            # Sub-nanosecond smoothed interval: ensure the poll makes progress
+            wait = Duration(1)
+        poll_time = now + wait
         return [
             Event(
                 time=poll_time,
